@@ -199,6 +199,7 @@ func main() {
 	ctx := &Ctx{Prop: id, Tier: *tier, Seed: *seed, Rng: rand.New(rand.NewSource(*seed)), Driver: *driver, Replay: *replay}
 	ctx.R = &Report{Property: id, Tier: *tier, Seed: *seed, Counters: map[string]int{}, distinct: map[string]bool{}}
 	t0 := time.Now()
+	initAsIs(ctx)
 	f(ctx)
 	ctx.R.WallS = time.Since(t0).Seconds()
 	b, _ := json.MarshalIndent(ctx.R, "", " ")
